@@ -21,6 +21,7 @@ import (
 	"context"
 	"errors"
 	"fmt"
+	"time"
 
 	blocks "github.com/ipfs/go-block-format"
 	"github.com/ipfs/go-cid"
@@ -76,7 +77,39 @@ const (
 	sigStored    = "C10/fetch/unverified-block-stored-after-populated-entry-passed-it"
 	sigStale     = "C10/fetch/returns-nil-with-unfilled-block-after-stale-registry-entry"
 	sigHasherPop = "C10/hasher/unverified-bytes-accepted-for-populated-request"
+	// a request that is still registered and waiting (its Fetch has not returned) loses its verifier:
+	// the honest block is refused with "no unmarshallers registered"
+	sigRejectedPending = "C10/concurrent-fetch/honest-block-rejected-while-request-pending"
+	// Fetch returned nil although one of its Blocks is empty, in a history where the specification has it
+	// filled (NOT the stale-entry history of sigStale, where the specification itself predicts it)
+	sigNilUnfilled = "C10/fetch/returns-nil-unfilled"
 )
+
+// waitArrivalOrResult: after prefix.Sum was started either the hasher runs into the gate of some
+// registered UnmarshalFn for that CID, or Sum returns (rejected before it got there).
+func (r *run) waitArrivalOrResult(inv *invocation, match func(event) bool) (*event, *sumResult, error) {
+	for i, e := range r.backlog {
+		if match(e) {
+			r.backlog = append(r.backlog[:i], r.backlog[i+1:]...)
+			return &e, nil, nil
+		}
+	}
+	t := time.NewTimer(watchdog)
+	defer t.Stop()
+	for {
+		select {
+		case e := <-r.events:
+			if match(e) {
+				return &e, nil, nil
+			}
+			r.backlog = append(r.backlog, e)
+		case x := <-inv.resCh:
+			return nil, &x, nil
+		case <-t.C:
+			return nil, nil, fmt.Errorf("watchdog: hasher neither reached an UnmarshalFn nor returned within %s", watchdog)
+		}
+	}
+}
 
 func indexOf(xs []string, x string) int {
 	for i, y := range xs {
@@ -220,13 +253,33 @@ func (w *world) replay(b behaviour, bind *binding, typ string) bool {
 	// oracle below turns it into a violation; otherwise it is reported as drift at the end
 	var underFilled []string
 	violated := false
+	// free run: once the real registry has visibly diverged from the specification's (the hasher reached
+	// ANOTHER Fetch's UnmarshalFn than the one the specification's registry holds) the remaining steps are
+	// used as stimuli only -- blocks are published to whoever really waits for them, per Bitswap's
+	// contract -- and only the property's own oracles are evaluated.  No oracle firing => drift (exit 2).
+	free := false
+	freeWhy := ""
+	waiting := map[string]bool{}              // GetBlocks released
+	delivered := map[string]map[string]bool{} // fetch -> cid name -> published to it
 	defer func() {
 		if !violated {
 			for _, u := range underFilled {
 				rep.Inconclusivef("%s", u)
 			}
+			if free {
+				rep.Inconclusivef("replay %s (%s, %s): %s; no oracle fired afterwards", b.Name, b.Source, typ, freeWhy)
+			}
 		}
 	}()
+	honest := func(m mMsg) bool {
+		return m.Env == "ok" && m.Wf == "ok" && m.Body.Kind == "honest" && m.Body.Of == m.Cid && m.Body.Sq == "S"
+	}
+	cidMatch := func(cidName string) func(event) bool {
+		return func(e event) bool {
+			fs, ok := r.fetches[e.f]
+			return e.kind == "unmarshal" && ok && e.idx < len(fs.names) && fs.names[e.idx] == cidName
+		}
+	}
 	for i, s := range b.Steps {
 		switch s.A {
 		case "FetchStart":
@@ -251,6 +304,7 @@ func (w *world) replay(b behaviour, bind *binding, typ string) bool {
 			}
 		case "FetchGetBlocks":
 			r.release("getblocks", s.F, 0)
+			waiting[s.F] = true
 		case "HasherWrite":
 			data, prefix, _, err := w.materialise(*s.M, bind, i)
 			if err != nil {
@@ -289,27 +343,72 @@ func (w *world) replay(b behaviour, bind *binding, typ string) bool {
 			// invocation holds it, the real call is started when that one unlocks (`replayable` has
 			// excluded behaviours where the registry changes in between).
 			for t2, o := range th {
-				if t2 != s.T && o.arrived && o.owner == inv.owner && o.idx == inv.idx {
+				if t2 != s.T && o.arrived && o.owner == inv.owner && o.idx == inv.idx && !free {
 					inv.queued = true
 				}
 			}
 			if !inv.queued {
 				spawn()
-				if _, err := r.waitFor("hasher arriving in UnmarshalFn", func(e event) bool { return e.kind == "unmarshal" && e.f == inv.owner && e.idx == inv.idx }); err != nil {
+				ev, res, err := r.waitArrivalOrResult(inv, cidMatch(inv.m.Cid))
+				switch {
+				case err != nil:
 					return drift(i, "%v", err)
+				case res != nil:
+					// the specification finds a registered entry, the real hasher returned without
+					// reaching any UnmarshalFn
+					inv.res = res
+					if res.pan != "" {
+						rep.Violate("C10/hasher/panic", res.pan, ctxInfo(i))
+						violated = true
+						return false
+					}
+					if own := r.fetches[inv.owner]; res.err != nil && honest(inv.m) && own != nil && !own.done && !free {
+						rep.Violate(sigRejectedPending, fmt.Sprintf("%s %v: Fetch %s has registered the request and is still waiting, another Fetch of the same identifier has come and gone; the honest block is now refused: %v",
+							typ, bind.ids[inv.m.Cid], inv.owner, res.err), ctxInfo(i))
+						violated = true
+						return false
+					}
+					if !free {
+						free, freeWhy = true, fmt.Sprintf("step %d HLookup: the specification finds %s's entry, the real hasher returned %v", i, inv.owner, res.err)
+					}
+				case ev.f != inv.owner || ev.idx != inv.idx:
+					if !free {
+						free, freeWhy = true, fmt.Sprintf("step %d HLookup: the specification's registry holds %s's entry, the real hasher reached the UnmarshalFn of %s", i, inv.owner, ev.f)
+					}
+					inv.owner, inv.idx, inv.arrived = ev.f, ev.idx, true
+				default:
+					inv.arrived = true
 				}
-				inv.arrived = true
 			}
 		case "HLock":
-			if inv := th[s.T]; !inv.arrived {
+			if inv := th[s.T]; !inv.arrived && !free {
 				return drift(i, "model takes the entry lock, the real hasher has not reached UnmarshalFn")
 			}
 		case "HUnmarshal":
 			inv := th[s.T]
+			if free {
+				if inv.arrived {
+					r.release("unmarshal", inv.owner, inv.idx)
+					res := <-inv.resCh
+					inv.res, inv.arrived = &res, false
+				}
+				break
+			}
 			r.release("unmarshal", inv.owner, inv.idx)
 			res := <-inv.resCh
 			inv.res = &res
 			inv.arrived = false
+			if res.pan != "" {
+				rep.Violate("C10/hasher/panic", res.pan, ctxInfo(i))
+				violated = true
+				return false
+			}
+			if (res.err == nil) != (s.Hpc[s.T] == "accepted") {
+				return drift(i, "model %s, real err=%v", s.Hpc[s.T], res.err)
+			}
+			if res.err == nil && !honest(inv.m) {
+				rep.Violate(sigHasherPop, fmt.Sprintf("%s %v: block %+v does not verify for it but passes the hasher (the registered Block was already populated)", typ, bind.ids[inv.m.Cid], inv.m), ctxInfo(i))
+			}
 			// start the invocation that (in the model) looked this entry up while it was locked
 			for t2, o := range th {
 				if t2 != s.T && o.queued && !o.spawned && o.owner == inv.owner && o.idx == inv.idx {
@@ -326,19 +425,39 @@ func (w *world) replay(b behaviour, bind *binding, typ string) bool {
 			}
 		case "BitswapPublish":
 			inv := th[s.T]
-			if len(s.Takers) > 0 {
+			takers := s.Takers
+			if free {
+				// Bitswap's contract on the real state: every Fetch that waits for this CID and has not been
+				// served it yet gets the block, provided Sum returned exactly that CID
+				takers = nil
+				if inv.res != nil && inv.res.err == nil && inv.m.Wf == "ok" && inv.res.c.Equals(bind.cidOf(inv.m.Cid)) {
+					for f, fs := range r.fetches {
+						if waiting[f] && !fs.done && indexOf(fs.names, inv.m.Cid) >= 0 && !delivered[f][inv.m.Cid] {
+							takers = append(takers, f)
+						}
+					}
+				}
+			}
+			if len(takers) > 0 {
 				want := bind.cidOf(inv.m.Cid)
 				if inv.res == nil || inv.res.err != nil || !inv.res.c.Equals(want) {
 					return drift(i, "model publishes, but Sum did not return the requested CID")
 				}
 				blk, _ := blocks.NewBlockWithCid(inv.data, inv.res.c)
-				for _, f := range s.Takers {
+				for _, f := range takers {
 					inFlight[f] = append(inFlight[f], blk)
+					if delivered[f] == nil {
+						delivered[f] = map[string]bool{}
+					}
+					delivered[f][inv.m.Cid] = true
 				}
 			}
 			delete(th, s.T)
 		case "FetchRecv":
 			fs := r.fetches[s.F]
+			if len(inFlight[s.F]) == 0 && free {
+				break
+			}
 			if len(inFlight[s.F]) == 0 {
 				return drift(i, "model receives a block nobody published")
 			}
@@ -361,7 +480,8 @@ func (w *world) replay(b behaviour, bind *binding, typ string) bool {
 			switch {
 			case e.kind == "done" && e.pan != "":
 				fs.done, fs.res = true, e
-				if s.Pc[s.F] == "panicked" {
+				violated = true
+				if s.Pc[s.F] == "panicked" && !free {
 					rep.Violate(sigPanic, fmt.Sprintf("%s %v: concurrent Fetch of one identifier; the first request is filled by an honest block, a second block with the same inner CID and a container that does not verify passes the hasher and is handed to the duplicate Fetch, which panics: %s",
 						typ, bind.ids[s.Cid], firstLine(e.pan)), ctxInfo(i))
 				} else {
@@ -371,7 +491,7 @@ func (w *world) replay(b behaviour, bind *binding, typ string) bool {
 			case e.kind == "done":
 				fs.done, fs.res = true, e
 				return drift(i, "Fetch returned (%v) instead of consuming the block", e.err)
-			case s.Pc[s.F] == "panicked":
+			case s.Pc[s.F] == "panicked" && !free:
 				return drift(i, "model panics, real Fetch went on (%s, err=%v): the model over-approximates", e.kind, e.err)
 			case e.kind == "stored":
 				// what was stored must be the honest block of that CID
@@ -385,6 +505,35 @@ func (w *world) replay(b behaviour, bind *binding, typ string) bool {
 			}
 		case "FetchReturn":
 			fs := r.fetches[s.F]
+			if fs.done {
+				break
+			}
+			if free && !s.Cancelled {
+				// Bitswap closes the channel after everything published was taken
+				for len(inFlight[s.F]) > 0 {
+					if !fs.ex.send(inFlight[s.F][0]) {
+						break
+					}
+					inFlight[s.F] = inFlight[s.F][1:]
+					e, err := r.waitFor("Fetch "+s.F+" consuming a block", func(e event) bool {
+						return e.f == s.F && (e.kind == "stored" || e.kind == "unmarshal-ret" || e.kind == "done")
+					})
+					if err != nil {
+						return drift(i, "%v", err)
+					}
+					if e.kind == "unmarshal-ret" && e.err != nil {
+						e, _ = r.waitFor("Fetch ending", func(e event) bool { return e.f == s.F && e.kind == "done" })
+					}
+					if e.kind == "done" {
+						fs.done, fs.res = true, e
+						if e.pan != "" {
+							rep.Violate("C10/fetch/panic", fmt.Sprintf("Fetch %s panics: %s", s.F, e.pan), ctxInfo(i))
+							violated = true
+						}
+						return false
+					}
+				}
+			}
 			if s.Cancelled {
 				fs.cancel()
 			} else {
@@ -405,11 +554,11 @@ func (w *world) replay(b behaviour, bind *binding, typ string) bool {
 			if !s.Cancelled {
 				for k, n := range fs.names {
 					if isEmpty(fs.reals[k]) {
-						if s.Cont[s.F][n].Kind == "empty" {
+						if s.Cont[s.F][n].Kind == "empty" && !free {
 							rep.Violate(sigStale, fmt.Sprintf("%s %v: Fetch returned nil but its Block is empty: the hasher filled the Block of an earlier, already returned Fetch through a registry entry it had loaded before that Fetch deleted it",
 								typ, bind.ids[n]), ctxInfo(i))
 						} else {
-							rep.Violate("C10/fetch/returns-nil-unfilled", fmt.Sprintf("%s %v: Fetch %s returned nil (success) but its Block is empty; the specification has it filled with the verified container at this point", typ, bind.ids[n], s.F), ctxInfo(i))
+							rep.Violate(sigNilUnfilled, fmt.Sprintf("%s %v: Fetch %s returned nil (success) but its Block is empty; the specification has it filled with the verified container at this point", typ, bind.ids[n], s.F), ctxInfo(i))
 						}
 						violated = true
 					}
@@ -425,6 +574,9 @@ func (w *world) replay(b behaviour, bind *binding, typ string) bool {
 					rep.Violate("C10/filled-with-unverified-data", fmt.Sprintf("%s %v of %s holds data that is not the committed data", typ, bind.ids[n], f), ctxInfo(i))
 					return false
 				}
+				if free {
+					continue
+				}
 				if empty && s.Cont[f][n].Kind != "empty" {
 					if len(underFilled) == 0 {
 						underFilled = append(underFilled, fmt.Sprintf("replay %s (%s, %s) step %d %s: container of %s/%s stays empty, model %+v", b.Name, b.Source, typ, i, s.A, f, n, s.Cont[f][n]))
@@ -437,7 +589,7 @@ func (w *world) replay(b behaviour, bind *binding, typ string) bool {
 			}
 		}
 	}
-	return true
+	return !free
 }
 
 func firstLine(s string) string {
